@@ -378,12 +378,7 @@ theorem decVal_at_trace (env : Env) (k : Nat) (t t' : Ty) (f : Nat) (bs : Bytes)
   · exact decVal_untrace env k t t' f bs x ht hd
   · simp only [Option.some.injEq] at ht; subst ht; exact ⟨f, hd⟩
 
-theorem small_suf (s : St) (r : Bytes) (hs : Small s) (h : Suf r s.input) : Small (inp s r) := by
-  unfold Small at *
-  rw [inp_input]
-  have := h.len
-  have : r.length * 11 ≤ s.input.length * 11 := Nat.mul_le_mul_right 11 this
-  omega
+theorem small_suf (s : St) (r : Bytes) (_ : Small s) (_ : Suf r s.input) : Small (inp s r) := trivial
 
 /-! ## leaves -/
 
@@ -684,8 +679,6 @@ theorem vec_skip_w (env : Env) (m : Nat) (hI : SKIw env m) (ww : Ty) (fr n : Nat
     have hu2 : Unmetered (inp s r0) := inp_unmetered s _ hu
     have hsm2 : Small (inp s r0) := small_suf s r0 hsm (readLenDe_suf hl).1
     have hokw : OKW env wire := hok.step (reach_trace env m ww wire htr)
-    have hbound : r0.length * 11 ≤ usizeMax := by
-      have := hsm2; unfold Small at this; rw [inp_input] at this; exact this
     have hm2 : decMany (decVal env fr ww) n (inp s r0).input = .ok (vs, r) := by rw [inp_input]; exact hm
     refine Skips.of_inp (a := r0) ?_
     cases hx : exactPrim ww wire with
@@ -707,9 +700,8 @@ theorem vec_skip_w (env : Env) (m : Nat) (hI : SKIw env m) (ww : Ty) (fr n : Nat
       have hn : n ≤ r0.length := by
         have : n ≤ n * sz := Nat.le_mul_of_pos_right _ hsz1.1
         omega
-      have h1 : ¬ (n * (3 + sz) > usizeMax) := by
-        have : n * (3 + sz) ≤ r0.length * 11 := Nat.mul_le_mul hn (by omega)
-        omega
+      by_cases h1 : n * (3 + sz) > usizeMax
+      · rw [if_pos h1]; first | exact Or.inl rfl | exact CoRel.starvedR _ _ _
       rw [if_neg h1, addCost_unmetered_ok _ hu2]
       simp only [rbind_ok]
       rw [if_neg (by rw [inp_input]; omega)]
@@ -735,9 +727,8 @@ theorem vec_skip_w (env : Env) (m : Nat) (hI : SKIw env m) (ww : Ty) (fr n : Nat
           · exact decMany_len _ 1 (fun bs v r' h => decPrim_nat_len (decVal_prim env fr _ bs _ h)) n r0 vs r hm
           · exact decMany_len _ 1 (fun bs v r' h => decPrim_int_len (decVal_prim env fr _ bs _ h)) n r0 vs r hm
         have hn : n ≤ r0.length := by omega
-        have h1 : ¬ (n * 3 > usizeMax) := by
-          have : n * 3 ≤ r0.length * 11 := Nat.mul_le_mul hn (by omega)
-          omega
+        by_cases h1 : n * 3 > usizeMax
+        · rw [if_pos h1]; first | exact Or.inl rfl | exact CoRel.starvedR _ _ _
         rw [if_neg h1, addCost_unmetered_ok _ hu2]
         simp only [rbind_ok]
         rcases hcases with ⟨h1, h3⟩ | ⟨h1, h3⟩ <;> subst h1 h3
@@ -1412,8 +1403,6 @@ theorem tr_vec_elems_w (env : Env) (m : Nat) (hT : TRw env m) (nn : Nat) (w2 e2 
     have hsm2 : Small (inp s r0) := small_suf s r0 hsm (readLenDe_suf hl).1
     have hfullw := Sub.traceFull_of_trace env m w2 wire htr
     have hokwire : OKW env wire := hokw.step (reach_trace env m w2 wire htr)
-    have hbound : r0.length * 11 ≤ usizeMax := by
-      have := hsm2; unfold Small at this; rw [inp_input] at this; exact this
     have hm2 : decMany (decVal env fr w2) n (inp s r0).input = .ok (vs, r) := by rw [inp_input]; exact hm
     have hsufD : ∀ bs v r', decVal env fr w2 bs = .ok (v, r') → Suf r' bs := fun bs v r' h => decVal_suf env fr w2 bs v r' h
     -- the element reader at the unfolded wire type
@@ -1443,9 +1432,8 @@ theorem tr_vec_elems_w (env : Env) (m : Nat) (hT : TRw env m) (nn : Nat) (w2 e2 
       have hn : n ≤ r0.length := by
         have : n ≤ n * sz := Nat.le_mul_of_pos_right _ hsz1.1
         omega
-      have h1 : ¬ (n * (3 + sz) > usizeMax) := by
-        have : n * (3 + sz) ≤ r0.length * 11 := Nat.mul_le_mul hn (by omega)
-        omega
+      by_cases h1 : n * (3 + sz) > usizeMax
+      · rw [if_pos h1]; first | exact Or.inl rfl | exact CoRel.starvedR _ _ _
       rw [if_neg h1, addCost_unmetered_ok _ hu2]
       simp only [rbind_ok]
       rw [if_neg (by rw [inp_input]; omega)]
@@ -1487,9 +1475,8 @@ theorem tr_vec_elems_w (env : Env) (m : Nat) (hT : TRw env m) (nn : Nat) (w2 e2 
               obtain ⟨f', hf'⟩ := helemw bs _ h
               exact decPrim_int_len (decVal_prim env f' _ bs _ hf')) n r0 vs r hm
         have hn : n ≤ r0.length := by omega
-        have h1 : ¬ (n * 3 > usizeMax) := by
-          have : n * 3 ≤ r0.length * 11 := Nat.mul_le_mul hn (by omega)
-          omega
+        by_cases h1 : n * 3 > usizeMax
+        · rw [if_pos h1]; first | exact Or.inl rfl | exact CoRel.starvedR _ _ _
         rw [if_neg h1, addCost_unmetered_ok _ hu2]
         simp only [rbind_ok]
         refine (iterV_corel_w _ _ (decVal env fr w2) hsufD (fun s' x r' h hu' _ => ?_) n (inp s r0) vs r hm2 hu2 hsm2).toVec
@@ -2257,7 +2244,7 @@ theorem message_rel_w (bs : Bytes) (env : Env) (expected : List Ty) (hd : Header
     (hda : decArgs (mergeEnv hd.table env expected).1 f hd.args body = .ok (vs, []))
     (hokw : ∀ w ∈ hd.args, OKW (mergeEnv hd.table env expected).1 w)
     (hoke : ∀ e ∈ (mergeEnv hd.table env expected).2, OKE (mergeEnv hd.table env expected).1 e)
-    (hlen : (mergeEnv hd.table env expected).1.length + 2 ≤ De.defaultFuel) (hsm : body.length * 11 ≤ usizeMax) :
+    (hlen : (mergeEnv hd.table env expected).1.length + 2 ≤ De.defaultFuel) :
     ArgRel (coerceArgs (mergeEnv hd.table env expected).1 n false (mergeEnv hd.table env expected).1 hd.args vs
         (mergeEnv hd.table env expected).2)
       (decodeWithConfig bs env expected ⟨none, none⟩) := by
@@ -2268,7 +2255,7 @@ theorem message_rel_w (bs : Bytes) (env : Env) (expected : List Ty) (hd : Header
   rw [addCost_unmetered_ok _ hu0]
   simp only [rbind_ok]
   have := args_rel_w (mergeEnv hd.table env expected).1 hlen n (mergeEnv hd.table env expected).2 hd.args vs f
-    { input := body, gamma := [], dq := none, sq := none, untyped := false } [] hda hu0 hokw hoke hsm
+    { input := body, gamma := [], dq := none, sq := none, untyped := false } [] hda hu0 hokw hoke trivial
   have hid : (fun (x : List Val) => ([] : List Val).reverse ++ x) = id := by funext x; simp
   rw [hid] at this
   have hmap : ∀ (x : Outcome (List Val)), x.map id = x := by intro x; cases x <;> rfl
